@@ -185,6 +185,8 @@ func build(fx *cat.Fixture, c caseA) (*s3c.Req, error) {
 			r.Path += m.Value
 		case "header-drop":
 			r.Del(m.Name)
+		case "auth-header":
+			// applied after signing, below
 		default:
 			if nb := applyBodyMut(r.Body, m); len(nb) <= 8<<20 {
 				r.Body = nb // larger bodies only cost time: the point is structure, not volume
@@ -231,6 +233,20 @@ func build(fx *cat.Fixture, c caseA) (*s3c.Req, error) {
 		a := r.Get("Authorization")
 		if i := strings.Index(a, "Signature="); i > 0 {
 			r.Set("Authorization", a[:i+10]+strings.Repeat("0", 64))
+		}
+	}
+	// the headers of the signature itself, cut short / extended after signing
+	for _, m := range c.Muts {
+		if m.Where != "auth-header" {
+			continue
+		}
+		orig := r.Get(m.Name)
+		cut := m.Index
+		if cut > len(orig) {
+			cut = len(orig)
+		}
+		if v := orig[:cut] + m.Value; headerSafe(v) {
+			r.Set(m.Name, v)
 		}
 	}
 	return r, nil
@@ -452,6 +468,11 @@ func isNumericName(n string) bool {
 	return false
 }
 
+var emptyish = []string{"", "\"\"", " ", "\"", "0"}
+var authHeaders = []string{"X-Amz-Date", "X-Amz-Date", "Authorization", "Authorization", "X-Amz-Content-Sha256"}
+var authCuts = []int{0, 1, 4, 7, 8, 9, 15, 16, 17, 28, 29, 40, 60, 100, 150, 1000}
+var authTails = []string{"", "", "Z", "T", ",", "=", "/", " ", "0", "20260101T000000Z", "/20260101/us-east-1/s3/aws4_request", ", SignedHeaders=", ", Signature="}
+
 func valueFor(t *rapid.T, name, label string) string {
 	if isNumericName(name) && rapid.IntRange(0, 3).Draw(t, label+"_num") != 0 {
 		return rapid.SampledFrom(numeric).Draw(t, label+"_numeric")
@@ -473,7 +494,7 @@ func genCase(t *rapid.T) caseA {
 	e := cat.Lookup(c.Spec.Op)
 	for i := 0; i < n; i++ {
 		var m mut
-		kind := rapid.SampledFrom([]string{"query", "query", "header", "header", "body-text", "body-drop", "body-doc", "body-dup", "body-nest", "path-append", "header-drop"}).Draw(t, "where")
+		kind := rapid.SampledFrom([]string{"query", "query", "header", "header", "body-text", "body-text", "body-drop", "body-doc", "body-dup", "body-nest", "path-append", "header-drop", "auth-header"}).Draw(t, "where")
 		m.Where = kind
 		switch kind {
 		case "query":
@@ -494,7 +515,11 @@ func genCase(t *rapid.T) caseA {
 			m.Value = valueFor(t, m.Name, "hval")
 		case "body-text":
 			m.Index = rapid.IntRange(0, 7).Draw(t, "leaf")
-			m.Value = hostileGen().Draw(t, "text")
+			m.Value = rapid.OneOf(hostileGen(), hostileGen(), rapid.SampledFrom(emptyish)).Draw(t, "text")
+		case "auth-header":
+			m.Name = rapid.SampledFrom(authHeaders).Draw(t, "auth_name")
+			m.Index = rapid.SampledFrom(authCuts).Draw(t, "auth_cut")
+			m.Value = rapid.SampledFrom(authTails).Draw(t, "auth_tail")
 		case "body-drop":
 			m.Index = rapid.IntRange(0, 7).Draw(t, "leaf")
 		case "header-drop":
@@ -633,12 +658,32 @@ func TestC20Sweep(t *testing.T) {
 			}
 		}
 		if e.Method == "PUT" || e.Method == "POST" || e.Method == "PATCH" {
+			// every leaf of the operation's own document emptied or dropped
+			for leaf := 0; leaf < 6; leaf++ {
+				for _, v := range emptyish {
+					cases = append(cases, caseA{Versioning: true, Spec: target(e), Caller: "root", Muts: []mut{{Where: "body-text", Index: leaf, Value: v}}})
+				}
+				cases = append(cases, caseA{Versioning: true, Spec: target(e), Caller: "root", Muts: []mut{{Where: "body-drop", Index: leaf}}})
+			}
 			for _, d := range bodyDocs {
 				ms := []mut{{Where: "body-doc", Value: d}}
 				if e.Name == "PutObjectAcl" || e.Name == "PutBucketAcl" {
 					ms = append(ms, mut{Where: "header-drop", Name: "x-amz-acl"})
 				}
 				cases = append(cases, caseA{Versioning: true, Spec: target(e), Caller: "root", Muts: ms})
+			}
+		}
+	}
+	// the signature's own headers cut at every interesting length, on a few representative operations
+	for _, opn := range []string{"GetObject", "PutObject", "ListBuckets", "DeleteObjects", "AdminListUsers"} {
+		if cat.Lookup(opn) == nil {
+			continue
+		}
+		for _, h := range []string{"X-Amz-Date", "Authorization", "X-Amz-Content-Sha256"} {
+			for _, cut := range authCuts {
+				for _, tail := range []string{"", "Z", ","} {
+					cases = append(cases, caseA{Versioning: true, Spec: cat.Spec{Op: opn, Bucket: "A", Key: "obj"}, Caller: "root", Muts: []mut{{Where: "auth-header", Name: h, Index: cut, Value: tail}}})
+				}
 			}
 		}
 	}
